@@ -217,6 +217,7 @@ theorem refStep_eq' (c : KV) (s : Assign) : ∃ v, refStep c s = setK s.key v c 
   | set k v => exact ⟨v, rfl, by simp [stepKey, Assign.key], fun h => h⟩
   | append k v => exact ⟨_, rfl, by simp [stepKey, Assign.key], fun _ => rfl⟩
   | item k i v => exact ⟨_, rfl, by simp [stepKey, Assign.key], fun _ => rfl⟩
+  | note k => exact ⟨_, rfl, by simp [stepKey, Assign.key], fun _ => rfl⟩
 
 theorem stage_refStep {a : Arg} (ha : a ∈ p.args) (s : Assign) (hs : ∃ b ∈ p.args, s.key = b.dest) (hv : s.valOk = true)
     {c : KV} (hi : Inv p c) :
@@ -492,9 +493,9 @@ theorem stage_applyConfig {a b : Arg} (ha : a ∈ p.args) (hb : b ∈ p.args) (t
     getK a.dest (applyConfig p b.dest t c) = evalKey a.dest (asgConfig p b.dest t) (getK a.dest c)
     ∧ Inv p (applyConfig p b.dest t c) := by
   obtain ⟨h1, h2⟩ := stage_mergeTree hp ha _ ht hi
-  have : applyConfig p b.dest t c = refStep (mergeConfig p (expand p t) c) (.append b.dest (.lst [.none])) := rfl
+  have : applyConfig p b.dest t c = refStep (mergeConfig p (expand p t) c) (.note b.dest) := rfl
   rw [this]
-  obtain ⟨h3, h4⟩ := stage_refStep hp ha (.append b.dest (.lst [.none])) ⟨b, hb, rfl⟩ rfl h2
+  obtain ⟨h3, h4⟩ := stage_refStep hp ha (.note b.dest) ⟨b, hb, rfl⟩ rfl h2
   refine ⟨?_, h4⟩
   rw [h3, h1, asgConfig, evalKey_append]
   rfl
